@@ -2935,8 +2935,23 @@ ythread_create(ABTI_global *p_global, ABTI_local *p_local, ABTI_pool *p_pool,
             ABTI_thread_init_pool(p_global, &p_newthread->thread, p_pool);
         if (ABTI_IS_ERROR_CHECK_ENABLED &&
             ABTU_unlikely(abt_errno != ABT_SUCCESS)) {
-            if (p_keytable)
+            if (p_keytable) {
+                if (p_sched &&
+                    !(thread_type & (ABTI_THREAD_TYPE_PRIMARY |
+                                     ABTI_THREAD_TYPE_MAIN_SCHED))) {
+                    /* p_sched still belongs to the caller.  Unregister it so
+                     * that freeing the key table does not run the destructor
+                     * that releases p_sched.  Overwriting the value of an
+                     * existing key does not allocate memory, so this never
+                     * fails. */
+                    int ret =
+                        ABTI_ktable_set_unsafe(p_global, p_local, &p_keytable,
+                                               &g_thread_sched_key, NULL);
+                    ABTI_ASSERT(ret == ABT_SUCCESS);
+                    (void)ret;
+                }
                 ABTI_ktable_free(p_global, p_local, p_keytable);
+            }
             ABTI_mem_free_thread(p_global, p_local, &p_newthread->thread);
             return abt_errno;
         }
